@@ -18,6 +18,11 @@ CONSTANTS
   RefuseInst <- MCRefuseInst
   Invokers <- MCInvokers
   CbOf <- MCCbOf
+  IdOf <- MCIdOf
+  KeyFields <- MCKeyFields
+  SdkObs <- MCSdkObs
+  PreMeter <- MCPreMeter
+  SkipEmpty = @SKIPEMPTY@
   SharedObs = @SHAREDOBS@
   Shape = @SHAPE@
   RecsPer = @RECSPER@
